@@ -86,11 +86,18 @@ pub struct RecvCase {
     pub auto_credit: u32,
     /// pause between the frames the scripted sender writes, in ms (0 = everything at once)
     pub gap_ms: u64,
+    /// the scripted sender sends its deliveries settled
+    pub settled: bool,
+    /// before a recv that is going to be dropped the application states its credit again, as often as the
+    /// link-to-session queue has places: the queue is full when the recv looks for room
+    pub fill: bool,
+    /// the application makes its first recv call this many ms after attaching: the deliveries are there by then
+    pub start_delay_ms: u64,
 }
 
 impl RecvCase {
     pub fn to_json(&self) -> J {
-        json!({"sizes": self.sizes, "cuts": self.cuts, "polls": self.polls, "auto_accept": self.auto_accept, "buffer_size": self.buffer_size, "auto_credit": self.auto_credit, "gap_ms": self.gap_ms})
+        json!({"sizes": self.sizes, "cuts": self.cuts, "polls": self.polls, "auto_accept": self.auto_accept, "buffer_size": self.buffer_size, "auto_credit": self.auto_credit, "gap_ms": self.gap_ms, "settled": self.settled, "fill": self.fill, "start_delay_ms": self.start_delay_ms})
     }
     pub fn from_json(j: &J) -> Option<RecvCase> {
         Some(RecvCase {
@@ -101,6 +108,9 @@ impl RecvCase {
             buffer_size: j.get("buffer_size").and_then(|x| x.as_u64()).unwrap_or(2048) as usize,
             auto_credit: j.get("auto_credit").and_then(|x| x.as_u64()).unwrap_or(100) as u32,
             gap_ms: j.get("gap_ms").and_then(|x| x.as_u64()).unwrap_or(2),
+            settled: j.get("settled").and_then(|x| x.as_bool()).unwrap_or(false),
+            fill: j.get("fill").and_then(|x| x.as_bool()).unwrap_or(false),
+            start_delay_ms: j.get("start_delay_ms").and_then(|x| x.as_u64()).unwrap_or(0),
         })
     }
 }
@@ -121,6 +131,9 @@ pub fn run_recv(case: &RecvCase) -> Result<(Vec<Vec<u8>>, u32, Vec<String>), Str
             let mut cancelled = 0u32;
             let mut i = 0usize;
             let mut notes = vec![];
+            if c.start_delay_ms > 0 {
+                tokio::time::sleep(Duration::from_millis(c.start_delay_ms)).await;
+            }
             let deadline = tokio::time::Instant::now() + Duration::from_secs(30);
             while got.len() < c.sizes.len() && tokio::time::Instant::now() < deadline {
                 let polls = c.polls.get(i).copied().unwrap_or(0);
@@ -147,6 +160,11 @@ pub fn run_recv(case: &RecvCase) -> Result<(Vec<Vec<u8>>, u32, Vec<String>), Str
                         }
                     }
                 } else {
+                    if c.fill && c.buffer_size <= 4 {
+                        for _ in 0..c.buffer_size {
+                            let _ = tokio::time::timeout(Duration::from_millis(50), r.set_credit(c.auto_credit.max(1))).await;
+                        }
+                    }
                     match poll_n(r.recv::<Value>(), polls).await {
                         Some(Ok(d)) => {
                             if let Value::Binary(b) = d.body() {
@@ -203,7 +221,7 @@ pub fn run_recv(case: &RecvCase) -> Result<(Vec<Vec<u8>>, u32, Vec<String>), Str
             for (pi, p) in pieces.iter().enumerate() {
                 let first = pi == 0;
                 let last = pi + 1 == pieces.len();
-                let t = transfer(3, if first { Some(id) } else { None }, if first { Some(vec![k as u8]) } else { None }, if first { Some(false) } else { None }, !last);
+                let t = transfer(3, if first { Some(id) } else { None }, if first { Some(vec![k as u8]) } else { None }, if first { Some(case.settled) } else { None }, !last);
                 peer.send(0, Performative::Transfer(t), p).await.map_err(|e| format!("{:?}", e))?;
                 // a pause between frames: the client's recv may be cancelled in the middle of a delivery
                 if case.gap_ms > 0 {
@@ -572,7 +590,7 @@ pub fn gen_recv_case(rng: &mut Rng) -> RecvCase {
     let sizes: Vec<usize> = (0..n).map(|_| *rng.pick(&[0usize, 1, 10, 100, 1000])).collect();
     let cuts: Vec<Vec<u8>> = (0..n).map(|_| (0..rng.below(4)).map(|_| rng.range(1, 7) as u8).collect()).collect();
     let polls: Vec<u32> = (0..rng.range(1, 14)).map(|_| if rng.chance(1, 3) { 0 } else { rng.range(1, 6) as u32 }).collect();
-    RecvCase { sizes, cuts, polls, auto_accept: rng.chance(1, 2), buffer_size: *rng.pick(&[1usize, 1, 2, 2048]), auto_credit: *rng.pick(&[1u32, 2, 5, 100]), gap_ms: *rng.pick(&[0u64, 0, 2]) }
+    RecvCase { sizes, cuts, polls, auto_accept: rng.chance(1, 2), buffer_size: *rng.pick(&[1usize, 1, 2, 2048]), auto_credit: *rng.pick(&[1u32, 2, 5, 100]), gap_ms: *rng.pick(&[0u64, 0, 2]), settled: rng.chance(1, 3), fill: rng.chance(1, 3), start_delay_ms: *rng.pick(&[0u64, 0, 30]) }
 }
 
 pub fn gen_send_case(rng: &mut Rng) -> SendCase {
@@ -662,7 +680,7 @@ pub fn main(opts: &Opts) {
     let mut q_what: Vec<(String, J)> = vec![];
     let mut corpus: Vec<SendCase> = vec![];
     let mut rcorpus: Vec<RecvCase> = vec![];
-    if let Ok(rd) = std::fs::read_dir("/verif/corpus/C16") {
+    if let Ok(rd) = std::fs::read_dir(format!("{}/C16", std::env::var("VERIF_CORPUS").unwrap_or_else(|_| "/verif/corpus".into()))) {
         let mut files: Vec<_> = rd.filter_map(|e| e.ok()).map(|e| e.path()).collect();
         files.sort();
         for f in files {
